@@ -14,6 +14,7 @@ import (
 func init() {
 	vpRegister("c18_validate", vpH_c18_validate)
 	vpRegister("c18_loadkey", vpH_c18_loadkey)
+	vpRegister("c18_generate", vpH_c18_generate)
 	vpRegister("c18_brokenfile", vpH_c18_brokenfile)
 	vpRegister("c18_reload", vpH_c18_reload)
 }
@@ -227,5 +228,30 @@ func vpH_c18_brokenfile() {
 	}
 	if err == nil {
 		vpAssert(got != nil && got.KeyID() == kids[pick], "when loading succeeds, the key is the first entry of the file with the requested id")
+	}
+}
+
+// Keys the library generates for the three approved algorithms validate, and
+// carry the requested id (an empty id included) and the algorithm, on both
+// halves of the pair - whatever order the attributes are set in. Key material
+// generation itself is the cryptographic library's and is not looked into.
+func vpH_c18_generate() {
+	alg := []jwa.SignatureAlgorithm{jwa.PS512, jwa.ES512, jwa.EdDSA}[vpInt(0, 2)]
+	id := vpStrUpTo(1, "a-b")
+	priv, pub, err := NewKeyPair(id, alg)
+	vpAssert(err == nil && priv != nil && pub != nil, "a key pair is generated for every approved algorithm")
+	if err != nil || priv == nil || pub == nil {
+		return
+	}
+	for _, set := range []jwk.Set{priv, pub} {
+		vpAssert(set.Len() == 1, "each half is a set of one key")
+		key, ok := set.Key(0)
+		if !ok {
+			vpAssert(ok, "the set holds a key")
+			return
+		}
+		vpAssert(Validate(key) == nil, "a generated key validates")
+		vpAssert(key.KeyID() == id, "a generated key carries the requested id")
+		vpAssert(key.Algorithm().String() == alg.String(), "a generated key carries its algorithm")
 	}
 }
